@@ -14,6 +14,8 @@ pub const C03_FILE_FUEL: u64 = 200_000_000;
 pub enum Loaded {
     Buffer(Box<Buffer>),
     Layer(Box<Layer>),
+    Font(Box<BitFont>),
+    Fonts(Vec<TheDrawFont>),
     Other(String),
     Err(String),
     None,
@@ -31,11 +33,11 @@ pub fn call_entry(entry: &str, name: &str, bytes: &[u8]) -> Loaded {
             Err(e) => Loaded::Err(e.to_string()),
         },
         "BitFont::from_bytes" => match BitFont::from_bytes(name.to_string(), bytes) {
-            Ok(f) => Loaded::Other(format!("font {}x{} n={}", f.size.width, f.size.height, f.length)),
+            Ok(f) => Loaded::Font(Box::new(f)),
             Err(e) => Loaded::Err(e.to_string()),
         },
         "TheDrawFont::from_tdf_bytes" => match TheDrawFont::from_tdf_bytes(bytes) {
-            Ok(f) => Loaded::Other(format!("tdf fonts={}", f.len())),
+            Ok(f) => Loaded::Fonts(f),
             Err(e) => Loaded::Err(e.to_string()),
         },
         "Layer::from_clipboard_data" => match Layer::from_clipboard_data(bytes) {
@@ -187,6 +189,25 @@ pub fn run_load(trace: &Trace) -> Outcome {
                                                     ei,
                                                 ));
                                             }
+                                        }
+                                    }
+                                }
+                            }
+                            Loaded::Font(f) => {
+                                res_class = "ok";
+                                digest ^= crate::rng::fnv(&format!("font {}x{} n={}", f.size.width, f.size.height, f.length));
+                                stats.max("loaded_glyphs", f.glyphs.len() as u64);
+                                if prop == "C10" {
+                                    violation = crate::mon_term::check_font("C10", f, ei, &format!("{entry}({name})"));
+                                }
+                            }
+                            Loaded::Fonts(fs) => {
+                                res_class = "ok";
+                                digest ^= crate::rng::fnv(&format!("tdf fonts={}", fs.len()));
+                                if prop == "C10" {
+                                    for f in fs {
+                                        if std::str::from_utf8(f.name.as_bytes()).is_err() {
+                                            violation = Some(crate::monitors::inv("C10", "invalid_utf8", format!("{entry}: TheDraw font name is not valid UTF-8"), ei));
                                         }
                                     }
                                 }
